@@ -66,6 +66,10 @@ class C12(ProgramProperty):
                 steps.append(q(c, "expand_pair_all", p, "1"))
         vals = {uncps(v) for _, v in rm + rw}
         tags = []
+        if rng.random() < 0.35:
+            steps += gen.live_tail(rng, recs, 0, [1, 2], redo=[{"op": "remap_uri", "dst": 5, "src": 0, "mapping": rm},
+                                                               {"op": "rewire", "dst": 6, "src": 0, "mapping": rw}])
+            tags.append("history:live-objects")
         if vals & set(us):
             tags.append("value-already-known")
         if {uncps(k) for k, _ in rm} & {uncps(v) for _, v in rm}:
